@@ -89,15 +89,22 @@ func Centroid(g geom.Geom) (geom.Point, error) {
 	case geom.Polygon:
 		for _, r := range g.(geom.Polygon) {
 			a := area(r)
+			// The sums are formed from coordinates relative to the first
+			// vertex of the ring: products of absolute coordinates lose
+			// their significant digits for rings far from the origin.
 			cx, cy := 0., 0.
-			for i := 0; i < len(r)-1; i++ {
-				cx += (r[i].X + r[i+1].X) *
-					(r[i].X*r[i+1].Y - r[i+1].X*r[i].Y)
-				cy += (r[i].Y + r[i+1].Y) *
-					(r[i].X*r[i+1].Y - r[i+1].X*r[i].Y)
+			if len(r) > 0 {
+				o := r[0]
+				for i := 0; i < len(r)-1; i++ {
+					x0, y0 := r[i].X-o.X, r[i].Y-o.Y
+					x1, y1 := r[i+1].X-o.X, r[i+1].Y-o.Y
+					cross := x0*y1 - x1*y0
+					cx += (x0 + x1) * cross
+					cy += (y0 + y1) * cross
+				}
+				cx = o.X + cx/(6*a)
+				cy = o.Y + cy/(6*a)
 			}
-			cx /= 6 * a
-			cy /= 6 * a
 			A += a
 			xA += cx * a
 			yA += cy * a
